@@ -12,6 +12,7 @@
    are replayed on the real code by harness/c12.py (known findings C12/...). *)
 From Coq Require Import String List Bool NArith ZArith Permutation.
 From Tally Require Import C12.TextLib Gen.C12MerchantId Gen.C12Embed C12.Model C12.Proofs.
+From Tally Require Lib.Str Gen.ClassificationPy C06.Model C12.Classify.
 Import ListNotations.
 Open Scope N_scope.
 
@@ -71,6 +72,12 @@ Theorem c12_json_embedded_roundtrip :
   forall s : text, forallb is_scalar s = true -> decode (esc_lt (encode s)) = Some s.
 Proof. exact json_escaped_roundtrip. Qed.
 Print Assumptions c12_json_embedded_roundtrip.
+
+(* the embedded JSON text of a string is printable ASCII: the same bytes in every ASCII-compatible encoding *)
+Theorem c12_embedded_string_ascii :
+  forall s : text, Forall (fun c => c < 1114112) s -> Forall (fun x => 32 <= x /\ x <= 126) (esc_lt (encode s)).
+Proof. intros s H. apply esc_lt_printable, encode_printable, H. Qed.
+Print Assumptions c12_embedded_string_ascii.
 
 (* hence, for string data d: extract, then decode = d *)
 Theorem c12_script_extract_decode :
@@ -185,6 +192,42 @@ Theorem c12_each_transaction_once_partial :
 Proof. exact category_view_txns. Qed.
 Print Assumptions c12_each_transaction_once_partial.
 
+(* the rows written under a merchant: every analysed transaction, in order, unchanged, whatever their number
+   (no cap), the i-th with id "<merchant id>_<i>"; the ids of one merchant are pairwise distinct *)
+Theorem c12_transactions_all_embedded :
+  forall m : merchant,
+    map snd (embedded_txns (to_j m)) = m_txns m /\ length (embedded_txns (to_j m)) = length (m_txns m) /\
+    map fst (embedded_txns (to_j m)) = map (txn_id (mid m)) (seq 0 (length (m_txns m))).
+Proof.
+  intros m. pose proof (embedded_txns_all (to_j m)) as H. repeat split; [exact H| |apply embedded_txns_ids].
+  rewrite <- (map_length snd), H. reflexivity.
+Qed.
+Print Assumptions c12_transactions_all_embedded.
+
+Theorem c12_transaction_ids_distinct : forall j : jmerchant, NoDup (map fst (embedded_txns j)).
+Proof. exact embedded_txns_ids_nodup. Qed.
+Print Assumptions c12_transaction_ids_distinct.
+
+(* the whole category view: the embedded rows of all listed merchants are exactly the analysed transactions *)
+Theorem c12_embedded_rows_partial :
+  forall ms, NoDup (map mid ms) ->
+    Permutation (flat_map (fun j => map (pair (j_name j)) (map snd (embedded_txns j))) (view_merchants (category_view ms)))
+                (named_txns ms).
+Proof.
+  intros ms H. erewrite flat_map_ext; [apply (category_view_txns ms H)|].
+  intros j. rewrite embedded_txns_all. reflexivity.
+Qed.
+Print Assumptions c12_embedded_rows_partial.
+
+(* non-vacuity at a size boundary: 1001 transactions under one merchant are 1001 rows, ids ..._0 to ..._1000 *)
+Example c12_transactions_example :
+  let m := {| m_name := cps "Metro Fare"; m_cat := cps "Transit"; m_sub := cps "Fares"; m_total := 176176; m_count := 1001;
+              m_txns := repeat (w_txn "FARE" 176) 1001 |} in
+  length (embedded_txns (to_j m)) = 1001%nat /\
+  map fst (firstn 2 (embedded_txns (to_j m))) = [cps "Metro_Fare_0"; cps "Metro_Fare_1"] /\
+  map fst (skipn 1000 (embedded_txns (to_j m))) = [cps "Metro_Fare_1000"].
+Proof. vm_compute. repeat split; reflexivity. Qed.
+
 Definition c12_category_sums_statement : Prop :=
   forall ms, NoDup (map m_name ms) ->
     sumZ (map c_total (category_view ms)) = sumZ (map m_total ms) /\
@@ -240,6 +283,27 @@ Theorem c12_type_totals_listed :
   forall (f : txn -> Z) cv, sumZ (map (cat_tt f) cv) = sumZ (map f (flat_map j_txns (view_merchants cv))).
 Proof. exact type_totals_listed. Qed.
 Print Assumptions c12_type_totals_listed.
+
+(* the bucket table that report.py restates for typeTotals is the one of classification.categorize_amount as
+   translated from /repo on this run (same precedence income > investment > transfer, same sign tests):
+   for every amount and every list of (ASCII) tags, bucket by bucket *)
+Theorem c12_type_totals_match_classification :
+  forall (a : Z) (tg : list string),
+    let cat := Tally.Gen.ClassificationPy.ClassificationPy.categorize_amount Tally.C06.Model.z_ops a (Some tg) in
+    let t := Tally.C12.Classify.mk_txn a tg in
+    (tt_income t = Tally.Lib.Str.dget cat "income"%string 0 /\
+     tt_investment t = Tally.Lib.Str.dget cat "investment"%string 0 /\
+     tt_transfer t = Tally.Lib.Str.dget cat "transfer_in"%string 0 + Tally.Lib.Str.dget cat "transfer_out"%string 0 /\
+     tt_spending t = Tally.Lib.Str.dget cat "spending"%string 0)%Z.
+Proof. exact Tally.C12.Classify.type_totals_are_classification. Qed.
+Print Assumptions c12_type_totals_match_classification.
+
+Example c12_type_totals_classification_example :
+  let t := Tally.C12.Classify.mk_txn (-32000) ["Transfer"; "INVESTMENT"]%string in
+  (tt_investment t, tt_transfer t) = (32000, 0)%Z /\
+  Tally.Lib.Str.dget (Tally.Gen.ClassificationPy.ClassificationPy.categorize_amount Tally.C06.Model.z_ops (-32000) (Some ["Transfer"; "INVESTMENT"]%string))
+                     "investment"%string 0%Z = 32000%Z.
+Proof. vm_compute. split; reflexivity. Qed.
 
 (* non-vacuity: one merchant whose transactions carry different special tags (two purchases, one payout
    tagged Income, one TRANSFER): classified per transaction, not by the merchant's collected tags *)
